@@ -310,7 +310,7 @@ func runC07(c *core.Ctx) {
 
 	// requests for long registered origin names (the encrypted part grows to the 16-bit limit): served when authentic,
 	// refused when one bit near the end of the encrypted part is changed
-	for li, olen := range []int{609, 700, 1000, 5000, 40000, 65121, 65200, 65216} {
+	for li, olen := range []int{255, 256, 257, 300, 609, 700, 1000, 5000, 40000, 65121, 65200, 65216} {
 		if !c.Next() {
 			continue
 		}
@@ -690,7 +690,9 @@ func c07Differential(c *core.Ctx) {
 		for _, po := range [][]byte{refPadOrigin(origin), append(refPadOrigin(origin), make([]byte, 32)...), []byte(origin), append([]byte(origin), 0), nil, make([]byte, 64),
 			// fields that are not a whole number of blocks: a registered name, zero padding, then more bytes
 			append(refPadOrigin(origin), 'x', 'y', 'z'), append(refPadOrigin(origin), 0, 0, 1), append(append(refPadOrigin(origin), make([]byte, 32)...), 'q'), append([]byte(origin), 0, 0, 'x'),
-			append(make([]byte, 32), []byte(origin)...), append(refPadOrigin(origin), refPadOrigin(origin)...)} {
+			append(make([]byte, 32), []byte(origin)...), append(refPadOrigin(origin), refPadOrigin(origin)...),
+			// padding of 255, 256, 257 and 512 zero bytes behind the name
+			append([]byte(origin), make([]byte, 255)...), append([]byte(origin), make([]byte, 256)...), append([]byte(origin), make([]byte, 257)...), append(refPadOrigin(origin), make([]byte, 512)...)} {
 			judge(w.build(r, c07Opts{origin: origin, paddedOrigin: po}).enc, "padded-origin-variant")
 		}
 		// inner request variants: blinded message out of range, truncated, trailing
